@@ -12,6 +12,7 @@ import (
 	"os"
 	"path/filepath"
 	"sort"
+	"strings"
 
 	"verif/harness/internal/fr"
 )
@@ -19,8 +20,22 @@ import (
 func main() {
 	out := flag.String("out", "-", "output NDJSON file")
 	dir := flag.String("dir", "", "directory with behaviour files (*.json)")
+	list := flag.String("list", "", "file with one behaviour file name per line")
+	replicas := flag.Int("replicas", 1, "C14: execute every behaviour this many times")
+	repOffset := flag.Int("rep-offset", 0, "C14: number the replicas from this offset + 1")
 	flag.Parse()
 	files := flag.Args()
+	if *list != "" {
+		bz, err := os.ReadFile(*list)
+		if err != nil {
+			fatal(err)
+		}
+		for _, l := range strings.Split(string(bz), "\n") {
+			if strings.TrimSpace(l) != "" {
+				files = append(files, strings.TrimSpace(l))
+			}
+		}
+	}
 	if *dir != "" {
 		m, _ := filepath.Glob(filepath.Join(*dir, "*.json"))
 		sort.Strings(m)
@@ -46,7 +61,7 @@ func main() {
 		if err != nil {
 			fatal(err)
 		}
-		if err := fr.ReplayBehaviour(base, filepath.Base(f), bz, func(s fr.Step) error { return enc.Encode(s) }); err != nil {
+		if err := fr.ReplayReplicas(base, filepath.Base(f), bz, *replicas, *repOffset, func(s fr.Step) error { return enc.Encode(s) }); err != nil {
 			fatal(fmt.Errorf("%s: %w", f, err))
 		}
 	}
